@@ -65,6 +65,7 @@ fn main() {
         "c17" => props::c17::run(&args),
         "c18" => props::c18::run(&args),
         "c02" => props::c02::run(&args),
+        "c03" => props::c03::run(&args),
         "c19" => props::c19::run(&args),
         "c20" => props::c20::run(&args),
         "ind" => props::ind::run(&args),
